@@ -9,6 +9,10 @@ ROOT = os.path.dirname(os.path.dirname(os.path.abspath(__file__)))
 
 def main():
     rows = []
+    tl = {}
+    tp = os.path.join(ROOT, 'tools', 'thorough_last.json')
+    if os.path.exists(tp):
+        tl = json.load(open(tp))
     for i in range(1, 21):
         pid = f'C{i:02d}'
         p = os.path.join(ROOT, 'evidence', pid + '.json')
@@ -18,10 +22,13 @@ def main():
         c = e['coverage']
         q = c.get('queries', {})
         cases = c.get('configurations') or c.get('programs') or c.get('evaluations')
+        t = tl.get(pid, {})
         rows.append(f"| {pid} | {e['level']} | {e['tier']} | {cases} | {c.get('paths', c.get('states', ''))} | "
-                    f"{q.get('unsat', '')} / {q.get('sat', '')} | {c.get('solver_s', '')} | {e['wall_s']} |")
-    print('| id | level | tier | cases (configs / programs) | paths | queries unsat / sat | solver s (all workers) | wall s |')
-    print('|----|-------|------|---------------------------|-------|---------------------|------------------------|--------|')
+                    f"{q.get('unsat', '')} / {q.get('sat', '')} | {c.get('solver_s', '')} | {e['wall_s']} | "
+                    f"{t.get('evaluations', '')} | {t.get('unsat', '')} / {t.get('sat', '')} | {t.get('wall_s', '')} |")
+    print('| id | level | tier of the evidence file | cases (configs / programs) | paths | queries unsat / sat | solver s (all workers) | wall s | '
+          'last thorough sweep: paths | unsat / sat | wall s |')
+    print('|----|-------|------|---------------------------|-------|---------------------|------------------------|--------|-------|-------|-------|')
     print('\n'.join(rows))
 
 
